@@ -10,12 +10,12 @@ import (
 
 func init() {
 	register(&Property{
-		ID:        "C15",
-		Title:     "User tokens verify only if minted under the configured keys and unexpired",
-		DesignRef: "DESIGN.md §3 C15",
-		Technique: "checked must-pass-through chains per key mode on security.UserInfo (edge-cut reachability on go/ssa; every writer of the claims struct must be a verified decode whose failure blocks the accepting exit) + mint/verify sibling agreement + guarded reachability in web.TokenInfo",
-		LevelText: "Static: UserInfo returns a nil error only after a checked Validate(issuer constant, now); every call that can fill the claims is the Claims step of one of the two frozen chains (nested: ParseSignedAndEncrypted{dir,A128CBC-HS256,HS256} -> Decrypt(UserEncryptionKey) -> Claims(UserSigningKey); encrypt-only: ParseEncrypted{dir,A128CBC-HS256} -> Claims(UserEncryptionKey)) and its failure makes the accepting return unreachable; the encrypt-only chain runs only when no signing key is configured and the nested chain only when one is; the mint side never serialises with jwt.Signed alone, uses the same algorithms, keys, issuer and a constant lifetime <= 5 min. TokenInfo writes claims only over err == nil, answers 405/400/403 on the refusing branches, and no value derived from the claims reaches the response on an error path.",
-		LevelNote: "Trusted: go-jose JWE/JWS cryptography and allow-list enforcement. Not decided: behaviour per mutated token segment (library).",
+		ID:          "C15",
+		Title:       "User tokens verify only if minted under the configured keys and unexpired",
+		DesignRef:   "DESIGN.md §3 C15",
+		Technique:   "checked must-pass-through chains per key mode on security.UserInfo (edge-cut reachability on go/ssa; every writer of the claims struct must be a verified decode whose failure blocks the accepting exit) + mint/verify sibling agreement + guarded reachability in web.TokenInfo",
+		LevelText:   "Static: UserInfo returns a nil error only after a checked Validate(issuer constant, now); every call that can fill the claims is the Claims step of one of the two frozen chains (nested: ParseSignedAndEncrypted{dir,A128CBC-HS256,HS256} -> Decrypt(UserEncryptionKey) -> Claims(UserSigningKey); encrypt-only: ParseEncrypted{dir,A128CBC-HS256} -> Claims(UserEncryptionKey)) and its failure makes the accepting return unreachable; the encrypt-only chain runs only when no signing key is configured and the nested chain only when one is; the mint side never serialises with jwt.Signed alone, uses the same algorithms, keys, issuer and a constant lifetime <= 5 min. TokenInfo writes claims only over err == nil, answers 405/400/403 on the refusing branches, and no value derived from the claims reaches the response on an error path.",
+		LevelNote:   "Trusted: go-jose JWE/JWS cryptography and allow-list enforcement. Not decided: behaviour per mutated token segment (library).",
 		Explanation: "C15/verify-chain identifies the two chains by callee and argument shape, demands that each accepting return is cut off by the failure edge of every executed step, and that the claims struct has no other writer. C15/mode-agreement checks the guards selecting each chain against the mint side's predicate. C15/mint checks the builders, keys, issuer and expiry of GenerateUserToken. C15/http checks the branches of web.TokenInfo.",
 		Assumptions: []string{"the zero jwt.Claims cannot satisfy a non-empty expected issuer (so a path on which nothing was decoded is refused by Validate)"},
 		Rules: []RuleDef{
@@ -29,13 +29,13 @@ func init() {
 }
 
 type userChains struct {
-	fn                       *ssa.Function
-	std                      *ssa.Alloc
-	parseNested, parseEnc    *ssa.Call
-	decrypt                  *ssa.Call
-	claimsNested, claimsEnc  *ssa.Call
-	validate                 *ssa.Call
-	steps                    map[*ssa.Call]stepRef
+	fn                      *ssa.Function
+	std                     *ssa.Alloc
+	parseNested, parseEnc   *ssa.Call
+	decrypt                 *ssa.Call
+	claimsNested, claimsEnc *ssa.Call
+	validate                *ssa.Call
+	steps                   map[*ssa.Call]stepRef
 }
 
 func c15Chains(c *Ctx, rule string) *userChains {
